@@ -42,6 +42,26 @@ def _validate(name, path, wd, nchunks=None):
     return evs, v
 
 
+def _cap(rep, name, evs, v, per_group=6):
+    """Every failing event is counted in the evidence; replays / VIOLATION lines are written for the `per_group` smallest
+    failing systems of each (procedure, clause) group only (one code defect typically fails thousands of events)."""
+    by = {e["tid"]: e for e in evs}
+    groups = {}
+    for f in v["fails"]:
+        e = by[f["tid"]]
+        for cl in f["fail"]:
+            groups.setdefault((e["proc"], cl), []).append(f["tid"])
+    keep = {}
+    for (proc, cl), tids in groups.items():
+        tids.sort(key=lambda t: (len(by[t]["sys"]), by[t]["n"], sum(abs(x) for r in by[t]["sys"] for x in r), by[t]["key"]))
+        rep.notes.setdefault("failing_events", {})["%s/%s/%s" % (name, proc, cl)] = len(tids)
+        for t in tids[:per_group]:
+            keep.setdefault(t, set()).add(cl)
+    out = dict(v)
+    out["fails"] = [{"tid": t, "fail": sorted(cls)} for t, cls in sorted(keep.items())]
+    return out
+
+
 def _selftest(rep, evs, wd):
     """Binding self-test: corrupt one recorded field of real events; T must reject each with the expected clause."""
     bad, expect = [], {}
@@ -105,7 +125,7 @@ def _selftest(rep, evs, wd):
 
 def run(rep, tier):
     quick = tier == "quick"
-    wd = work_dir("C16", clean=True)
+    wd = work_dir("C16", "run", clean=True)      # patches of validated repairs live in .work/C16/*.diff
     cfg = "C16_LinArith_small.cfg" if quick else "C16_LinArith_deep.cfg"
     cls = ("all multisets of 1..2 factoids 0 <= a*x1 + b*x2 + c, a,b in -2..2, c in %s; all multisets of 3 factoids with %s"
            % (("-2..2", "a in {-2,0,2}, b,c in -1..1") if quick else ("-3..3", "a,b in -2..2, c in -1..1")))
@@ -122,11 +142,13 @@ def run(rep, tier):
                        "simplex_strict SAT assignments are symbolic in delta and are not examined; witnesses with |num| or den > 10^6 are not examined",
                        "NOCONCL / exception / time-out of the code is 'no conclusion' (allowed by the property), counted as divergence",
                        "TLC/SANY, CPython, kernel term accessors (is_number/dest_number, raw fields) used to project hypotheses to linear forms"]
-    vec, marker = wd / "vectors.ndjson", wd / "vectors.done"
+    vec, marker, rdone = wd / "vectors.ndjson", wd / "vectors.done", wd / "random.done"
     ev_vec, ev_rand = wd / "ev_vectors.ndjson", wd / "ev_random.ndjson"
-    nrand = 500 if quick else 8000
-    ex = ThreadPoolExecutor(max_workers=1)
-    fut = ex.submit(run_driver, "c16", ["all", vec, marker, ev_vec, ev_rand, nrand, seed(), tier], timeout=7200)
+    nrand = 300 if quick else 3000
+    ex = ThreadPoolExecutor(max_workers=3)
+    # the driver (one process: importing the int/real theories costs ~17 s) runs the random systems while TLC explores S,
+    # then replays the TLC vectors as soon as the marker says they are complete
+    fut = ex.submit(run_driver, "c16", ["all", vec, marker, ev_vec, ev_rand, nrand, seed(), tier, rdone], timeout=7200)
     ok = False
     try:
         r = model_check("C16_LinArith", cfg, wd=wd / "mc", workers=3, env={"VECTOR_FILE": vec}, timeout=7200)
@@ -145,23 +167,37 @@ def run(rep, tier):
                 pass
     rep.exhaustive = True
     rep.notes["vectors"] = sum(1 for _ in open(vec))
-    # oracle non-vacuity: a dark shadow without Pugh's correction term must violate DarkSound
-    spec_mutant(rep, "dark_shadow_without_correction", "C16_LinArith", "C16_LinArith_mut.cfg",
-                [("C16_LinCore.tla", "b * L[k] + a * U[k] - (a - 1) * (b - 1)]", "b * L[k] + a * U[k]]")],
-                ["DarkSound"], wd=wd, workers=2)
-    if not quick:
-        spec_mutant(rep, "gcd_tightening_rounds_up", "C16_LinArith", "C16_LinArith_mut.cfg",
-                    [("C16_LinCore.tla", "|-> f[k] \\div g] ELSE f", "|-> -((-f[k]) \\div g)] ELSE f")],
-                    INVS, wd=wd, workers=2)
-        spec_mutant(rep, "real_shadow_wrong_multiplier", "C16_LinArith", "C16_LinArith_mut.cfg",
-                    [("C16_LinCore.tla", "(d \\div g) * L[k] + (c \\div g) * U[k]]", "(c \\div g) * L[k] + (d \\div g) * U[k]]")],
-                    INVS + ["TypeOK"], wd=wd, workers=2)
+
+    def mutants():
+        # oracle non-vacuity: a dark shadow without Pugh's correction term must violate DarkSound
+        spec_mutant(rep, "dark_shadow_without_correction", "C16_LinArith", "C16_LinArith_mut.cfg",
+                    [("C16_LinCore.tla", "b * L[k] + a * U[k] - (a - 1) * (b - 1)]", "b * L[k] + a * U[k]]")],
+                    ["DarkSound"], wd=wd, workers=1)
+        if not quick:
+            spec_mutant(rep, "gcd_tightening_rounds_up", "C16_LinArith", "C16_LinArith_mut.cfg",
+                        [("C16_LinCore.tla", "|-> f[k] \\div g] ELSE f", "|-> -((-f[k]) \\div g)] ELSE f")],
+                        INVS, wd=wd, workers=1)
+            spec_mutant(rep, "real_shadow_wrong_multiplier", "C16_LinArith", "C16_LinArith_mut.cfg",
+                        [("C16_LinCore.tla", "(d \\div g) * L[k] + (c \\div g) * U[k]]", "(c \\div g) * L[k] + (d \\div g) * U[k]]")],
+                        INVS + ["TypeOK"], wd=wd, workers=1)
+
+    def trace_random():
+        t0 = time.time()
+        while not rdone.exists():
+            if fut.done():
+                fut.result()
+            require(time.time() - t0 < 7200, "C16: random driver did not finish")
+            time.sleep(0.2)
+        return _validate("random", ev_rand, wd, nchunks=1 if quick else 2)
+    fm, fr = ex.submit(mutants), ex.submit(trace_random)
     fut.result()
+    res = {"vectors": _validate("vectors", ev_vec, wd, nchunks=2 if quick else 3), "random": fr.result()}
+    fm.result()
     ex.shutdown()
     all_evs = []
-    for name, path in (("vectors", ev_vec), ("random", ev_rand)):
-        evs, v = _validate(name, path, wd, nchunks=2 if quick else None)
-        rep.add_trace_result(name, evs, v)
+    for name in ("vectors", "random"):
+        evs, v = res[name]
+        rep.add_trace_result(name, evs, _cap(rep, name, evs, v))
         all_evs += evs
     _selftest(rep, all_evs, wd)
     tr = rep.notes["traces"]
